@@ -436,6 +436,24 @@ func (n *net) tryJust(p gpbft.Payload) *gpbft.Justification {
 }
 
 func (n *net) randomValue() *gpbft.ECChain {
+	if n.rng.Intn(9) == 0 {
+		// an honest input with interior tipsets left out: same base, same head, another chain (an ECChain only
+		// needs increasing epochs) — whatever identifies a chain must cover its whole content
+		c := n.inputs[n.rng.Intn(len(n.inputs))]
+		if c.Len() >= 3 && c.Len() <= gpbft.ChainMaxLen {
+			ts := []*gpbft.TipSet{}
+			for i, t := range c.TipSets {
+				if i == 0 || i == c.Len()-1 || n.rng.Intn(2) == 0 {
+					ts = append(ts, t)
+				}
+			}
+			if len(ts) < c.Len() {
+				if sc, err := gpbft.NewChain(ts[0], ts[1:]...); err == nil {
+					return sc
+				}
+			}
+		}
+	}
 	if n.script && n.rng.Intn(12) == 0 {
 		return n.alts[len(n.alts)-1] // the foreign-base chain (late-binding rejection, also from the queue)
 	}
